@@ -370,6 +370,13 @@ AddLooplessTags(ev) ==
        \cup If(m.dir = "min", "minimising")
        \cup If(\E r \in RIdx(m) : m.lb[r] > 0 \/ m.ub[r] < 0, "forced_flux")
 
+\* add_loopless while reaction r is knocked out, bounds restored before optimising: the same claim about the
+\* model that is optimised.  Judged when the knock-out does not change the largest bound (add_loopless reads it
+\* once, as big-M, when it is called)
+KoKeepsBigM(m, r) == MaxAbsBound(KnockOut(m, {r})) = MaxAbsBound(m)
+AddLooplessKoClauses(ev) ==
+  IF C17Scope(cur) # "in" \/ ~KoKeepsBigM(cur, ev.step.r) THEN {} ELSE AddLooplessClauses(ev)
+
 \* ---------------------------------------------------------------- generic clauses of every event
 GenericClauses(ev) ==
   LET exp == ApplyEdit(cur, ev.step) IN
@@ -391,6 +398,7 @@ Clauses(ev, A) ==
     [] ev.step.op = "fastcc" -> FastccClauses(ev)
     [] ev.step.op = "loopless_solution" -> LooplessSolClauses(ev)
     [] ev.step.op = "add_loopless" -> AddLooplessClauses(ev)
+    [] ev.step.op = "add_loopless_ko" -> AddLooplessKoClauses(ev)
     [] OTHER -> {}
 
 \* root-cause tags: spec state and arguments, and the arithmetic FORM of a failing identity
@@ -418,6 +426,7 @@ Tags(ev, A) ==
     [] s.op = "fastcc" -> FastccTags(ev)
     [] s.op = "loopless_solution" -> LooplessSolTags(ev)
     [] s.op = "add_loopless" -> AddLooplessTags(ev)
+    [] s.op = "add_loopless_ko" -> AddLooplessTags(ev) \cup {"constraints_added_while_knocked_out"}
     [] OTHER -> {}
 
 Undecided(ev, A) ==
@@ -429,13 +438,15 @@ Undecided(ev, A) ==
     [] ev.step.op = "loopless_solution" -> C17Scope(cur) # "in" \/ (ev.step.start # "none" /\ ev.obs.raises # "crash" /\ ~StartOK(cur, ev.obs.start))
                                             \/ (ev.obs.raises = "none" /\ AllNum(ev.obs.sol.fluxes) /\ ~IsIntegral(Vals(ev.obs.sol.fluxes)))
     [] ev.step.op = "add_loopless" -> C17Scope(cur) # "in"
+    [] ev.step.op = "add_loopless_ko" -> C17Scope(cur) # "in" \/ ~KoKeepsBigM(cur, ev.step.r)
     [] OTHER -> FALSE
 
 UndecidedWhy(ev, A) ==
   CASE ev.step.op = "fva" -> IF A.scope # "in" THEN A.scope ELSE A.e.why
     [] ev.step.op \in {"blocked", "fastcc"} -> C19Scope(cur)
-    [] ev.step.op \in {"loopless_solution", "add_loopless"} ->
+    [] ev.step.op \in {"loopless_solution", "add_loopless", "add_loopless_ko"} ->
          IF C17Scope(cur) # "in" THEN C17Scope(cur)
+         ELSE IF ev.step.op = "add_loopless_ko" THEN "knock_out_changes_big_M"
          ELSE IF ev.step.op = "loopless_solution" /\ ev.step.start # "none" /\ ev.obs.raises # "crash" /\ ~StartOK(cur, ev.obs.start)
          THEN "start_vector_not_optimal" ELSE "returned_vector_not_integral"
     [] OTHER -> "not_unit_network"
